@@ -735,6 +735,23 @@ def symval_method(ex, recv, name, args, kwargs, node):
     if name == 'endswith':
         z, so = to_z3(args[0])
         return SymVal('bool', z3.SuffixOf(z, s))
+    if name in ('strip', 'lstrip', 'rstrip') and getattr(ex, 'exact_strip', False) and (not args or isinstance(args[0], str)) and not kwargs:
+        # exact: s == p ++ r ++ q with p, q over the stripped characters, r not starting / ending with one (the decomposition is unique)
+        chars = args[0] if args else ' \t\n\r\x0b\x0c'
+        if not chars:
+            return recv
+        cs = z3.Union(*[z3.Re(z3.StringVal(c)) for c in chars]) if len(chars) > 1 else z3.Re(z3.StringVal(chars))
+        r = z3.String(ex.fresh_name(f'{name}.core'))
+        pre = z3.String(ex.fresh_name(f'{name}.pre')) if name in ('strip', 'lstrip') else z3.StringVal('')
+        suf = z3.String(ex.fresh_name(f'{name}.suf')) if name in ('strip', 'rstrip') else z3.StringVal('')
+        cons = [s == z3.Concat(pre, r, suf), z3.InRe(pre, z3.Star(cs)), z3.InRe(suf, z3.Star(cs))]
+        n = z3.Length(r)
+        if name in ('strip', 'lstrip'):
+            cons.append(z3.Or(n == 0, z3.Not(z3.InRe(z3.SubString(r, 0, 1), cs))))
+        if name in ('strip', 'rstrip'):
+            cons.append(z3.Or(n == 0, z3.Not(z3.InRe(z3.SubString(r, n - 1, 1), cs))))
+        ex.assume(z3.And(*cons))
+        return SymVal('str', r)
     if name in ('lower', 'upper', 'strip', 'lstrip', 'rstrip', 'title', 'casefold'):
         # uninterpreted, functional in its argument (and idempotent) — enough for routing contracts
         f = z3.Function(f'str.{name}' + (repr(args[0]) if args else ''), z3.StringSort(), z3.StringSort())
